@@ -15,7 +15,10 @@ RULE = ("35% hdr: byte strings for NextLayer._get_host_header built from an HTTP
         "flight (HTTP head with Host variants, TLS ClientHello with SNI in 1-3 records, prefixes of both, garbage, server "
         "greeting); 25% run: TransparentProxy / ReverseProxy / Socks5Proxy + real NextLayer + real addon + real "
         "TCPLayer under lib.sansio with eager/lazy connect, segmented first flight, interleaved server data, closes and "
-        "deferred connect results; 10% e2e (oracle only): regular-mode CONNECT tunnel and ClientTLSLayer "
+        "deferred connect results; 8% tun + a fixed grid (oracle only): regular-mode CONNECT to an ignored host through the real HttpProxy + addon + "
+        "HttpLayer + TCPLayer(ignore) with the client stream (CONNECT head + first tunnel bytes) cut at a grid of points around the end of "
+        "the head (thorough: every point) and the pieces delivered before / between / after the deferred completions of the http_connect hook, "
+        "the upstream connect and the http_connected hook, eager and lazy; 9% e2e (oracle only): regular-mode CONNECT tunnel and ClientTLSLayer "
         "tls_clienthello.ignore_connection. Non-trivial = a Host line / ClientHello / pattern set is present and a decision "
         "or a relay happened; distinct by canonical JSON.")
 TRUSTED = ["Coq 8.16.1 kernel (coqc), vm_compute for case evaluation",
@@ -165,10 +168,73 @@ def _segment(rng, data, maxseg=4):
     return [data[a:b] for a, b in zip([0] + cuts, cuts + [len(data)]) if a < b]
 
 
-def gen(rng, n, tier):
+TUN_OK = b"HTTP/1.1 200 Connection established\r\n\r\n"
+
+
+def _tun_case(host, ign, payload, sched, eager):
+    return {"k": "tun", "host": host, "ignore": ign, "payload": hx(payload), "sched": sched, "eager": eager}
+
+
+def _tun_head(host):
+    return f"CONNECT {host}:443 HTTP/1.1\r\nHost: {host}:443\r\n\r\n".encode()
+
+
+def _tun_grid(tier):
+    """explicit-proxy CONNECT to an ignored host: the client stream (CONNECT head + first tunnel bytes) cut in two at a
+    grid of points (thorough: every point), the second piece delivered before / between / after the completions of the
+    pending http_connect hook, upstream connect and http_connected hook (x = complete the oldest pending one)"""
     out = []
+    host, ign = "example.com", [{"t": "lit", "s": "example.com"}]
+    head = _tun_head(host)
+    payload = client_hello(b"example.com")
+    stream = head + payload
+    if tier == "thorough":
+        cuts = list(range(1, len(stream)))
+    else:
+        cuts = sorted(set([1, 7, len(head) - 4, len(head) - 2, len(head) - 1, len(head), len(head) + 1, len(head) + 2, len(head) + 3,
+                           len(head) + 5, len(head) + 40, len(stream) - 1]))
+    for cut in cuts:
+        a, b = stream[:cut], stream[cut:]
+        for pos in range(4):
+            sched = [["d", hx(a)]] + [["x"]] * pos + [["d", hx(b)]] + [["x"]] * (3 - pos)
+            for eager in (True, False):
+                out.append(_tun_case(host, ign, payload, sched, eager))
+    return out
+
+
+def _tun_random(rng):
+    q = rng.random()
+    if q < 0.70:
+        host, ign, sni = "example.com", [{"t": "lit", "s": "example.com"}], b"example.com"
+    elif q < 0.85:
+        host, ign, sni = "192.0.2.1", [{"t": "lit", "s": "sni.example"}], b"sni.example"
+    else:
+        host, ign, sni = "evil.com", [{"t": "lit", "s": "example.com"}], b"evil.com"
+    payload = rng.choice([client_hello(sni, rng, nrec=rng.choice([1, 2])), client_hello(sni, rng) + b"\x17\x03\x03\x00\x02ab",
+                          b"GET / HTTP/1.1\r\nHost: " + sni + b"\r\n\r\n", b"SSH-2.0-x\r\n", b"\x00", b"PRI * HTTP/2.0\r\n\r\nSM\r\n\r\n"])
+    head = _tun_head(host)
+    stream = head + payload
+    # always one cut close to the end of the head, the rest anywhere
+    cuts = set([min(len(stream) - 1, max(1, len(head) + rng.randint(-3, 6)))])
+    for _ in range(rng.randint(0, 3)):
+        cuts.add(rng.randint(1, len(stream) - 1))
+    cuts = sorted(cuts)
+    segs = [stream[a:b] for a, b in zip([0] + cuts, cuts + [len(stream)])]
+    sched = [["d", hx(x)] for x in segs]
+    for _ in range(rng.randint(0, 4)):
+        sched.insert(rng.randint(1, len(sched)), ["x"])
+    if rng.chance(0.3):
+        sched.insert(rng.randint(1, len(sched)), ["s", hx(b"\x16\x03\x03\x00\x02hi")])
+    return _tun_case(host, ign, payload, sched, rng.chance(0.5))
+
+
+def gen(rng, n, tier):
+    out = _tun_grid(tier)
     for _ in range(n):
         r = rng.random()
+        if r < 0.08:
+            out.append(_tun_random(rng))
+            continue
         if r < 0.35:
             q = rng.random()
             if q < 0.35:
@@ -566,8 +632,69 @@ def _e2e(case):
             "crashed": d.crashed, "opened": [t[2] for t in d.trace if t[0] == "open"]}
 
 
+def _tun(case):
+    host = case["host"]
+    ctx = make_context({"connection_strategy": "eager" if case["eager"] else "lazy"},
+                       {"proxy_mode": mode_specs.ProxyMode.parse("regular")})
+    nl = _addon(ctx.options, [_rx(p) for p in case["ignore"]], [])
+    chosen = []
+
+    def policy(hook, drv):
+        if hook.name == "next_layer":
+            nl.next_layer(hook.data)
+            lay = hook.data.layer
+            if lay is not None:
+                chosen.append(type(lay).__name__ + ("/ignore" if getattr(lay, "flow", 1) is None else ""))
+                if len(chosen) > 1 and not chosen[-1].endswith("/ignore"):
+                    hook.data.layer = _Sink(hook.data.context)
+            return None
+        return DEFER if hook.blocking else None
+
+    d = Driver(lambda cx: modes.HttpProxy(cx), ctx=ctx, policy=policy, connect=lambda conn, drv: DEFER)
+    d.start()
+    srv_sent = b""
+
+    def complete_oldest():
+        if not d.deferred:
+            return False
+        c = d.deferred[0]
+        if isinstance(c, d.commands.OpenConnection):
+            c.connection.peername = ("192.0.2.7", 443)
+        d.complete(c)
+        return True
+
+    def server_data(b):
+        nonlocal srv_sent
+        if len(d.conns) > 1 and d.conns[1].timestamp_start is not None and (d.conns[1].state & d.CS.CAN_READ):
+            d.data(1, b)
+            srv_sent += b
+    for e in case["sched"]:
+        if d.crashed:
+            break
+        if e[0] == "d":
+            d.data(0, unhx(e[1]))
+        elif e[0] == "x":
+            complete_oldest()
+        else:
+            server_data(unhx(e[1]))
+    n = 0
+    while not d.crashed and complete_oldest() and n < 20:
+        n += 1
+    tail = b"\x17\x03\x03\x00\x04tail"
+    if not d.crashed:
+        d.data(0, tail)
+        while not d.crashed and complete_oldest() and n < 40:
+            n += 1
+        server_data(b"\x17\x03\x03\x00\x01z")
+    return {"chosen": chosen, "to_server": hx(d.sent(1)) if len(d.conns) > 1 else "", "to_client": hx(d.sent(0)),
+            "srv_sent": hx(srv_sent), "tail": hx(tail), "hooks": d.hook_names(), "crashed": d.crashed,
+            "pending": len(d.deferred)}
+
+
 def run_impl(case):
     k = case["k"]
+    if k == "tun":
+        return _tun(case)
     if k == "hdr":
         ctx = make_context()
         dc, ds = unhx(case["dc"]), unhx(case["ds"])
@@ -857,6 +984,33 @@ def oracle(case, obs):
             elif snt != arr[:len(snt)]:
                 v.append({"key": "relay-not-exact", "what": f"from_client={fc}: sent {snt} is not a prefix of arrived {arr}"})
         return v
+    if k == "tun":
+        if obs["crashed"]:
+            return [{"key": "layer-crash", "what": f"{obs['crashed']}"}]
+        ign = any(c.endswith("/ignore") for c in obs["chosen"])
+        direct = _match_any(case["ignore"], [f"{case['host']}:443"])
+        if direct and not ign and len(obs["chosen"]) < 2:
+            return [{"key": "connect-tunnel-not-verbatim",
+                     "what": f"CONNECT {case['host']}:443 (ignored host), eager={case['eager']}, schedule {case['sched']}: none of the client's "
+                             f"tunnel bytes reached the tunnel (no layer was ever chosen for it); server received {obs['to_server']!r}"}]
+        if direct and not ign:
+            return [{"key": "rule-not-honoured", "what": f"CONNECT {case['host']}:443 with ignore={case['ignore']}: chosen {obs['chosen']} (schedule {case['sched']})"}]
+        if not ign:
+            return []
+        want = unhx(case["payload"]) + unhx(obs["tail"])
+        got = unhx(obs["to_server"])
+        if got != want:
+            v.append({"key": "connect-tunnel-not-verbatim",
+                      "what": f"ignored CONNECT tunnel, eager={case['eager']}, schedule {case['sched']}: client sent {len(want)} tunnel bytes "
+                              f"{hx(want)}, server received {len(got)} bytes {obs['to_server']}"})
+        gotc = unhx(obs["to_client"])
+        if gotc != TUN_OK + unhx(obs["srv_sent"]):
+            v.append({"key": "connect-tunnel-not-verbatim",
+                      "what": f"ignored CONNECT tunnel, schedule {case['sched']}: server sent {obs['srv_sent']}, client received {obs['to_client']}"})
+        bad = [h for h in obs["hooks"] if h not in ("next_layer", "http_connect", "http_connected", "http_connect_upstream")]
+        if bad:
+            v.append({"key": "ignored-but-hooked", "what": f"hooks on an ignored tunnel: {bad}"})
+        return v
     # e2e
     if obs["crashed"]:
         return [{"key": "layer-crash", "what": f"{obs['crashed']}"}]
@@ -908,6 +1062,8 @@ def nontrivial(case, obs):
         return bool(case["cfg"]["ignore"] or case["cfg"]["allow"])
     if k == "run":
         return "cmds" in obs and len(obs["cmds"]) > 1
+    if k == "tun":
+        return any(c.endswith("/ignore") for c in obs["chosen"])
     return bool(obs["chosen"])
 
 
@@ -931,4 +1087,8 @@ def classify(case, obs):
             return ["run", "run-err"]
         return ["run", "run-" + case["mode"], f"run-final-{obs['final']}", "run-eager" if case["eager"] else "run-lazy",
                 "run-sends" if any(c[0] == "send" for c in obs["cmds"]) else "run-nosend"]
+    if k == "tun":
+        x = sum(1 for e in case["sched"] if e[0] == "x")
+        return ["tun", "tun-eager" if case["eager"] else "tun-lazy", f"tun-early-completions-{x}",
+                "tun-ignored" if any(c.endswith("/ignore") for c in obs["chosen"]) else "tun-intercepted"]
     return ["e2e", "e2e-" + case["via"], "e2e-ignored" if any("ignore" in c for c in obs["chosen"]) else "e2e-intercepted"]
